@@ -211,6 +211,17 @@ func (n *Net) Dial(a string, timeout time.Duration) (net.Conn, error) {
 	return client, nil
 }
 
+// Pipe returns the two ends of a connection with the given policy without
+// going through a listener (client end first).
+func (n *Net) Pipe(pol Policy) (net.Conn, net.Conn) {
+	c2s, s2c := newHalf(), newHalf()
+	p := pol
+	client := &conn{n: n, rd: s2c, wr: c2s, local: addr("client"), remote: addr("pipe"), pol: &p, isClient: true}
+	server := &conn{n: n, rd: c2s, wr: s2c, local: addr("pipe"), remote: addr("client"), pol: &p}
+	client.peer, server.peer = server, client
+	return client, server
+}
+
 func (c *conn) Read(b []byte) (int, error) {
 	h := c.rd
 	h.mu.Lock()
